@@ -46,7 +46,7 @@ func init() {
 			"op_update", "op_view", "managed_ret_err", "managed_ret_commit", "managed_ret_rollback", "managed_ret_panic", "op_reopen", "op_audit", "op_use_after_close",
 			"cfg_every_commit_flushed", "cfg_never_commits_held_in_cache", "cfg_seeded_forced_flushes", "cfg_seeded_commits_held_in_cache",
 			"scripts_all_configs_equal_model", "cross_config_steps_compared",
-			"conc_histories", "conc_ops", "conc_histories_linearizable", "conc_overlapping_histories", "conc_rolled_back_writes"},
+			"conc_histories", "conc_ops", "conc_histories_linearizable", "conc_overlapping_histories", "conc_rolled_back_writes", "conc_snapshot_delays"},
 		Post: func(a *kit.Agg) {
 			if a.Counters["cfg_every_commit_cache_not_empty"] > 0 {
 				a.Inconclusive("flush-on-every-commit configuration left %d commits in the cache: the configuration did not take effect", a.Counters["cfg_every_commit_cache_not_empty"])
